@@ -440,6 +440,56 @@ def addAllAt (s : St) (l1 l2 : Hdr) (index : Nat) (m : Mem) : Stat × St × Hdr 
 def addAll (s : St) (l1 l2 : Hdr) (m : Mem) : Stat × St × Hdr × Mem :=
   if l1.size = 0 then addAllToEmpty s l1 l2 m else addAllAt s l1 l2 l1.size m
 
+/-! ### iterator mutators
+
+The cursor positions stay with the sequence-level iterator models; at the level of raw links an iterator mutator is
+the pointer surgery on the node `iter->last` (given by its id) with the `index` test of the C text. -/
+
+/-- `cc_list_iter_add` (ascending) with `iter->last = last`, `iter->index = index` -/
+def iterAddAt (s : St) (l : Hdr) (last index x : Nat) (m : Mem) : Stat × St × Hdr × Mem :=
+  let a := m.allocT l.triple
+  if !a.1 then (.errAlloc, s, l, a.2) else
+  let m := a.2
+  let (new, s) := s.alloc
+  let h := setData s.heap new x
+  let h := linkAfter h last new
+  let l := if index = l.size then { l with tail := some new } else l
+  (.ok, { s with heap := h }, { l with size := l.size + 1 }, m)
+
+/-- `cc_list_diter_add` (descending) with `iter->last = last`, `iter->index = index` -/
+def diterAddAt (s : St) (l : Hdr) (last index x : Nat) (m : Mem) : Stat × St × Hdr × Mem :=
+  let a := m.allocT l.triple
+  if !a.1 then (.errAlloc, s, l, a.2) else
+  let m := a.2
+  let (new, s) := s.alloc
+  let h := setData s.heap new x
+  let l := if index = 0 then { l with head := some new } else l
+  let h := linkBehind h last new
+  (.ok, { s with heap := h }, { l with size := l.size + 1 }, m)
+
+/-- `cc_list_iter_remove` / `cc_list_diter_remove`: `unlinkn(iter->list, iter->last)` -/
+def iterRemoveAt (s : St) (l : Hdr) (last : Nat) (m : Mem) : Nat × St × Hdr × Mem := unlinkn s l last m
+
+/-- `cc_list_iter_replace` / `cc_list_diter_replace`: `iter->last->data = element` -/
+def iterReplaceAt (s : St) (last x : Nat) : Nat × St := ((nd s.heap last).data, { s with heap := setData s.heap last x })
+
+/-- `cc_list_zip_iter_add` -/
+def zipAddAt (s : St) (l1 l2 : Hdr) (last1 last2 index x1 x2 : Nat) (m : Mem) : Stat × St × Hdr × Hdr × Mem :=
+  let a1 := m.allocT l1.triple
+  if !a1.1 then (.errAlloc, s, l1, l2, a1.2) else
+  let a2 := a1.2.allocT l2.triple
+  if !a2.1 then (.errAlloc, s, l1, l2, a2.2.freeT l1.triple) else
+  let m := a2.2
+  let (new1, s) := s.alloc
+  let (new2, s) := s.alloc
+  let h := setData s.heap new1 x1
+  let h := setData h new2 x2
+  let h := linkAfter h last1 new1
+  let h := linkAfter h last2 new2
+  let l1 := if index = l1.size then { l1 with tail := some new1 } else l1
+  let l2 := if index = l2.size then { l2 with tail := some new2 } else l2
+  (.ok, { s with heap := h }, { l1 with size := l1.size + 1 }, { l2 with size := l2.size + 1 }, m)
+
 /-- `cc_list_new_conf` (the header is not a node: it only costs one allocation) -/
 def new (t : Triple) (m : Mem) : Stat × Option Hdr × Mem :=
   let a := m.allocT t
